@@ -1,7 +1,8 @@
 /-
   Normal forms of the vec_znx operations (helper lemmas for C08 / C13 / C18 / C11).
 -/
-import SpqProofs.Lemmas.VecGeneric
+import SpqProofs.Lemmas.VecGeneric2
+import SpqProofs.Lemmas.CoeffSizes
 namespace Spq.C08
 open Spq Heap
 variable {α : Type}
@@ -92,5 +93,311 @@ theorem add_nf (o : Ops α) (nn : Nat) (h : Heap α) (res rsz rsl a asz asl b bs
       exact (stepNF_limb0 (Coeffs.zero o nn) _).of_eq
         (by funext m; simp [addK, c2, c3]) (by funext sz; simp [addB, c2, c3])
 
+
+/-! ### sub -/
+
+def subK (o : Ops α) (nn asz bsz : Nat) (i : Nat) (x y _z : Array α) : Array α :=
+  if i < asz ∧ i < bsz then Coeffs.sub o nn x y
+  else if i < bsz then Coeffs.negate o nn y
+  else if i < asz then Coeffs.copy o nn x
+  else Coeffs.zero o nn
+
+theorem sub_nf (o : Ops α) (nn : Nat) (h : Heap α) (res rsz rsl a asz asl b bsz bsl : Nat) :
+    (VecZnx.sub o nn h res rsz rsl a asz asl b bsz bsl).mem =
+      (List.range' 0 rsz).foldl (fun m i => writeArr m (res + i * rsl)
+        (subK o nn asz bsz i (readLimb ⟨m, true⟩ o.zero (a + i * asl) nn) (readLimb ⟨m, true⟩ o.zero (b + i * bsl) nn)
+          (readLimb ⟨m, true⟩ o.zero (res + i * rsl) nn))) h.mem ∧
+    (VecZnx.sub o nn h res rsz rsl a asz asl b bsz bsl).ok =
+      (h.ok && (List.range' 0 rsz).all (fun i => addB nn res rsl a asz asl b bsz bsl i h.mem.size)) := by
+  unfold VecZnx.sub
+  split
+  · rename_i hab
+    apply three_phase _ _ _ (min rsz asz) (min rsz bsz) rsz (by omega) (by omega) (fun i => res + i * rsl)
+      (fun i m => subK o nn asz bsz i (readLimb ⟨m, true⟩ o.zero (a + i * asl) nn) (readLimb ⟨m, true⟩ o.zero (b + i * bsl) nn)
+          (readLimb ⟨m, true⟩ o.zero (res + i * rsl) nn))
+      (addB nn res rsl a asz asl b bsz bsl)
+    · intro i hi
+      have c1 : i < asz ∧ i < bsz := by omega
+      exact (stepNF_limb2 o.zero nn (Coeffs.sub o nn) (by simp) _ _ _).of_eq
+        (by funext m; simp [subK, c1]) (by funext sz; simp [addB, c1])
+    · intro i h1 h2
+      have c1 : ¬ i < asz := by omega
+      have c2 : i < bsz := by omega
+      exact (stepNF_limb1 o.zero nn (Coeffs.negate o nn) (by simp) _ _).of_eq
+        (by funext m; simp [subK, c1, c2]) (by funext sz; simp [addB, c1, c2])
+    · intro i h1 h2
+      have c2 : ¬ i < bsz := by omega
+      have c3 : ¬ i < asz := by omega
+      exact (stepNF_limb0 (Coeffs.zero o nn) _).of_eq
+        (by funext m; simp [subK, c2, c3]) (by funext sz; simp [addB, c2, c3])
+  · rename_i hab
+    apply three_phase _ _ _ (min rsz bsz) (min rsz asz) rsz (by omega) (by omega) (fun i => res + i * rsl)
+      (fun i m => subK o nn asz bsz i (readLimb ⟨m, true⟩ o.zero (a + i * asl) nn) (readLimb ⟨m, true⟩ o.zero (b + i * bsl) nn)
+          (readLimb ⟨m, true⟩ o.zero (res + i * rsl) nn))
+      (addB nn res rsl a asz asl b bsz bsl)
+    · intro i hi
+      have c1 : i < asz ∧ i < bsz := by omega
+      exact (stepNF_limb2 o.zero nn (Coeffs.sub o nn) (by simp) _ _ _).of_eq
+        (by funext m; simp [subK, c1]) (by funext sz; simp [addB, c1])
+    · intro i h1 h2
+      have c2 : ¬ i < bsz := by omega
+      have c3 : i < asz := by omega
+      exact (stepNF_limb1 o.zero nn (Coeffs.copy o nn) (by simp) _ _).of_eq
+        (by funext m; simp [subK, c2, c3]) (by funext sz; simp [addB, c2, c3])
+    · intro i h1 h2
+      have c2 : ¬ i < bsz := by omega
+      have c3 : ¬ i < asz := by omega
+      exact (stepNF_limb0 (Coeffs.zero o nn) _).of_eq
+        (by funext m; simp [subK, c2, c3]) (by funext sz; simp [addB, c2, c3])
+
+/-! ### one-source operations: `k` on the first `min rsz asz` limbs, then zero-extension.
+    The per-limb kernel `k i x z` receives the source limb `x` and the prior content `z` of the
+    output limb. -/
+
+def oneK (o : Ops α) (nn : Nat) (k : Nat → Array α → Array α → Array α) (asz : Nat)
+    (i : Nat) (x _y z : Array α) : Array α :=
+  if i < asz then k i x z else Coeffs.zero o nn
+
+def oneB (nn res rsl a asz asl : Nat) (i sz : Nat) : Bool :=
+  if i < asz then decide (a + i * asl + nn ≤ sz) && decide (res + i * rsl + nn ≤ sz)
+  else decide (res + i * rsl + nn ≤ sz)
+
+theorem oneSrc_nf (o : Ops α) (nn : Nat) (f : Nat → Heap α → Heap α)
+    (k : Nat → Array α → Array α → Array α) (h : Heap α) (res rsz rsl a asz asl : Nat)
+    (hf : ∀ i, i < min rsz asz → StepNF (f i) (res + i * rsl)
+      (fun m => k i (readLimb ⟨m, true⟩ o.zero (a + i * asl) nn) (readLimb ⟨m, true⟩ o.zero (res + i * rsl) nn))
+      (fun sz => decide (a + i * asl + nn ≤ sz) && decide (res + i * rsl + nn ≤ sz))) :
+    let h' := forLimbs (min rsz asz) rsz (fun i => limb0 (Coeffs.zero o nn) (res + i * rsl))
+                (forLimbs 0 (min rsz asz) f h)
+    h'.mem =
+      (List.range' 0 rsz).foldl (fun m i => writeArr m (res + i * rsl)
+        (oneK o nn k asz i (readLimb ⟨m, true⟩ o.zero (a + i * asl) nn) (readLimb ⟨m, true⟩ o.zero (res + i * rsl) nn)
+          (readLimb ⟨m, true⟩ o.zero (res + i * rsl) nn))) h.mem ∧
+    h'.ok = (h.ok && (List.range' 0 rsz).all (fun i => oneB nn res rsl a asz asl i h.mem.size)) := by
+  intro h'
+  apply two_phase _ _ (min rsz asz) rsz (by omega) (fun i => res + i * rsl)
+    (fun i m => oneK o nn k asz i (readLimb ⟨m, true⟩ o.zero (a + i * asl) nn) (readLimb ⟨m, true⟩ o.zero (res + i * rsl) nn)
+          (readLimb ⟨m, true⟩ o.zero (res + i * rsl) nn))
+    (oneB nn res rsl a asz asl)
+  · intro i hi
+    have c1 : i < asz := by omega
+    exact (hf i hi).of_eq (by funext m; simp [oneK, c1]) (by funext sz; simp [oneB, c1])
+  · intro i h1 h2
+    have c1 : ¬ i < asz := by omega
+    exact (stepNF_limb0 (Coeffs.zero o nn) _).of_eq
+      (by funext m; simp [oneK, c1]) (by funext sz; simp [oneB, c1])
+
+/-- value / frame theorem of a one-source operation in normal form -/
+theorem oneSrc_generic (o : Ops α) (nn : Nat) (k : Nat → Array α → Array α → Array α)
+    (hk : ∀ i x z, x.size = nn → z.size = nn → (k i x z).size = nn)
+    (m0 : Array α) (res rsz rsl a asz asl : Nat)
+    (hsl : nn ≤ rsl) (hres : InBounds nn m0.size res rsz rsl)
+    (ha : SrcOK nn res rsz rsl a asz asl) :
+    let G := fun i (m : Array α) => oneK o nn k asz i (readLimb ⟨m, true⟩ o.zero (a + i * asl) nn)
+                (readLimb ⟨m, true⟩ o.zero (res + i * rsl) nn) (readLimb ⟨m, true⟩ o.zero (res + i * rsl) nn)
+    let m' := (List.range' 0 rsz).foldl (fun m i => writeArr m (res + i * rsl) (G i m)) m0
+    m'.size = m0.size ∧
+    (∀ i c, i < rsz → c < nn → m'[res + i * rsl + c]? = (G i m0)[c]?) ∧
+    Frame nn res rsz rsl m0 m' :=
+  vec_generic' nn res rsz rsl a asz asl res 0 rsl o.zero (oneK o nn k asz)
+    (by intro i x y z hx _ hz; unfold oneK; split
+        · exact hk i x z hx hz
+        · simp)
+    (by intro i hi x x' y z
+        have c : ¬ i < asz := by omega
+        simp [oneK, c])
+    (by intro i _ x y y' z; rfl)
+    m0 hsl hres ha (Or.inl ⟨rfl, rfl⟩)
+
+/-! ### zero -/
+
+theorem zero_nf (o : Ops α) (nn : Nat) (h : Heap α) (res rsz rsl : Nat) :
+    (VecZnx.zero o nn h res rsz rsl).mem =
+      (List.range' 0 rsz).foldl (fun m i => writeArr m (res + i * rsl)
+        (oneK o nn (fun _ x _ => x) 0 i (readLimb ⟨m, true⟩ o.zero (res + i * rsl) nn) (readLimb ⟨m, true⟩ o.zero (res + i * rsl) nn)
+          (readLimb ⟨m, true⟩ o.zero (res + i * rsl) nn))) h.mem ∧
+    (VecZnx.zero o nn h res rsz rsl).ok =
+      (h.ok && (List.range' 0 rsz).all (fun i => oneB nn res rsl res 0 rsl i h.mem.size)) := by
+  have := oneSrc_nf o nn (fun _ h => h) (fun _ x _ => x) h res rsz rsl res 0 rsl (fun i hi => by omega)
+  simp only [Nat.min_zero, forLimbs_self] at this
+  exact this
+
+/-! ### copy, negate -/
+
+theorem copy_nf (o : Ops α) (nn : Nat) (h : Heap α) (res rsz rsl a asz asl : Nat) :
+    (VecZnx.copy o nn h res rsz rsl a asz asl).mem =
+      (List.range' 0 rsz).foldl (fun m i => writeArr m (res + i * rsl)
+        (oneK o nn (fun _ x _ => Coeffs.copy o nn x) asz i (readLimb ⟨m, true⟩ o.zero (a + i * asl) nn)
+          (readLimb ⟨m, true⟩ o.zero (res + i * rsl) nn) (readLimb ⟨m, true⟩ o.zero (res + i * rsl) nn))) h.mem ∧
+    (VecZnx.copy o nn h res rsz rsl a asz asl).ok =
+      (h.ok && (List.range' 0 rsz).all (fun i => oneB nn res rsl a asz asl i h.mem.size)) :=
+  oneSrc_nf o nn _ (fun _ x _ => Coeffs.copy o nn x) h res rsz rsl a asz asl
+    (fun _ _ => stepNF_limb1 o.zero nn (Coeffs.copy o nn) (by simp) _ _)
+
+theorem negate_nf (o : Ops α) (nn : Nat) (h : Heap α) (res rsz rsl a asz asl : Nat) :
+    (VecZnx.negate o nn h res rsz rsl a asz asl).mem =
+      (List.range' 0 rsz).foldl (fun m i => writeArr m (res + i * rsl)
+        (oneK o nn (fun _ x _ => Coeffs.negate o nn x) asz i (readLimb ⟨m, true⟩ o.zero (a + i * asl) nn)
+          (readLimb ⟨m, true⟩ o.zero (res + i * rsl) nn) (readLimb ⟨m, true⟩ o.zero (res + i * rsl) nn))) h.mem ∧
+    (VecZnx.negate o nn h res rsz rsl a asz asl).ok =
+      (h.ok && (List.range' 0 rsz).all (fun i => oneB nn res rsl a asz asl i h.mem.size)) :=
+  oneSrc_nf o nn _ (fun _ x _ => Coeffs.negate o nn x) h res rsz rsl a asz asl
+    (fun _ _ => stepNF_limb1 o.zero nn (Coeffs.negate o nn) (by simp) _ _)
+
+/-! ### rotate, automorphism: the kernel is selected per limb by the pointer-equality test -/
+
+/-- the kernel `vec_znx_rotate_ref` applies to limb `i` -/
+def rotKer (o : Ops α) (nn : Nat) (p : Int) (res rsl a asl : Nat) (i : Nat) (x _z : Array α) : Array α :=
+  if res + i * rsl = a + i * asl then Coeffs.rotateInplace o nn p x else Coeffs.rotate o nn p x
+
+/-- the kernel `vec_znx_automorphism_ref` applies to limb `i` (`z`: prior content of the output limb) -/
+def autKer (o : Ops α) (nn : Nat) (p : Int) (res rsl a asl : Nat) (i : Nat) (x z : Array α) : Array α :=
+  if res + i * rsl = a + i * asl then Coeffs.automorphismInplace o nn p x else Coeffs.automorphism o nn p x z
+
+theorem size_rotKer (o : Ops α) (nn : Nat) (p : Int) (res rsl a asl i : Nat) (x z : Array α)
+    (hx : x.size = nn) : (rotKer o nn p res rsl a asl i x z).size = nn := by
+  unfold rotKer; split <;> simp [hx]
+
+theorem size_autKer (o : Ops α) (nn : Nat) (p : Int) (res rsl a asl i : Nat) (x z : Array α)
+    (hx : x.size = nn) (hz : z.size = nn) : (autKer o nn p res rsl a asl i x z).size = nn := by
+  unfold autKer; split <;> simp [hx, hz]
+
+theorem rotate_nf (o : Ops α) (nn : Nat) (p : Int) (h : Heap α) (res rsz rsl a asz asl : Nat) :
+    (VecZnx.rotate o nn p h res rsz rsl a asz asl).mem =
+      (List.range' 0 rsz).foldl (fun m i => writeArr m (res + i * rsl)
+        (oneK o nn (rotKer o nn p res rsl a asl) asz i (readLimb ⟨m, true⟩ o.zero (a + i * asl) nn)
+          (readLimb ⟨m, true⟩ o.zero (res + i * rsl) nn) (readLimb ⟨m, true⟩ o.zero (res + i * rsl) nn))) h.mem ∧
+    (VecZnx.rotate o nn p h res rsz rsl a asz asl).ok =
+      (h.ok && (List.range' 0 rsz).all (fun i => oneB nn res rsl a asz asl i h.mem.size)) := by
+  apply oneSrc_nf o nn _ (rotKer o nn p res rsl a asl) h res rsz rsl a asz asl
+  intro i _
+  by_cases heq : res + i * rsl = a + i * asl
+  · simp only [if_pos heq]
+    refine (stepNF_limb1' o.zero nn (Coeffs.rotateInplace o nn p) (by intro x hx; simp [hx]) _ _).of_eq ?_ ?_
+    · funext m; simp only [rotKer, if_pos heq]; rw [heq]
+    · funext sz; rw [heq]
+  · simp only [if_neg heq]
+    refine (stepNF_limb1 o.zero nn (Coeffs.rotate o nn p) (by simp) _ _).of_eq ?_ rfl
+    funext m; simp only [rotKer, if_neg heq]
+
+theorem automorphism_nf (o : Ops α) (nn : Nat) (p : Int) (h : Heap α) (res rsz rsl a asz asl : Nat) :
+    (VecZnx.automorphism o nn p h res rsz rsl a asz asl).mem =
+      (List.range' 0 rsz).foldl (fun m i => writeArr m (res + i * rsl)
+        (oneK o nn (autKer o nn p res rsl a asl) asz i (readLimb ⟨m, true⟩ o.zero (a + i * asl) nn)
+          (readLimb ⟨m, true⟩ o.zero (res + i * rsl) nn) (readLimb ⟨m, true⟩ o.zero (res + i * rsl) nn))) h.mem ∧
+    (VecZnx.automorphism o nn p h res rsz rsl a asz asl).ok =
+      (h.ok && (List.range' 0 rsz).all (fun i => oneB nn res rsl a asz asl i h.mem.size)) := by
+  apply oneSrc_nf o nn _ (autKer o nn p res rsl a asl) h res rsz rsl a asz asl
+  intro i _
+  by_cases heq : res + i * rsl = a + i * asl
+  · simp only [if_pos heq]
+    refine (stepNF_limb1' o.zero nn (Coeffs.automorphismInplace o nn p) (by intro x hx; simp [hx]) _ _).of_eq ?_ ?_
+    · funext m; simp only [autKer, if_pos heq]; rw [heq]
+    · funext sz; rw [heq]
+  · simp only [if_neg heq]
+    refine (stepNF_limb1_dep o.zero nn (fun x z => Coeffs.automorphism o nn p x z)
+      (by intro x z _ hz; simp [hz]) _ _).of_eq ?_ rfl
+    funext m; simp only [autKer, if_neg heq]
+
+/-! ### frame with no hypothesis on the sources (C18) and bounds flag (C08), for any normal form -/
+
+theorem frame_of_nf (nn res rsz rsl : Nat) (G : Nat → Array α → Array α)
+    (hsz : ∀ i m, (G i m).size = nn) (m0 : Array α) :
+    let m' := (List.range' 0 rsz).foldl (fun m i => writeArr m (res + i * rsl) (G i m)) m0
+    m'.size = m0.size ∧ Frame nn res rsz rsl m0 m' := by
+  intro m'
+  refine ⟨size_foldl_writeArr _ _ _ _, ?_⟩
+  intro x hx
+  apply foldl_writeArr_frame nn (fun i => res + i * rsl) G hsz
+  intro i hi
+  rw [List.mem_range'_1] at hi
+  exact hx i (by omega)
+
+theorem size_addK (o : Ops α) (nn asz bsz i : Nat) (x y z : Array α) : (addK o nn asz bsz i x y z).size = nn := by
+  unfold addK; repeat' split
+  all_goals simp
+
+theorem size_subK (o : Ops α) (nn asz bsz i : Nat) (x y z : Array α) : (subK o nn asz bsz i x y z).size = nn := by
+  unfold subK; repeat' split
+  all_goals simp
+
+theorem size_oneK (o : Ops α) (nn : Nat) (k : Nat → Array α → Array α → Array α) (asz i : Nat) (x y z : Array α)
+    (hk : (k i x z).size = nn) : (oneK o nn k asz i x y z).size = nn := by
+  unfold oneK; split
+  · exact hk
+  · simp
+
+theorem oneB_true (nn sz res rsz rsl a asz asl : Nat)
+    (hres : InBounds nn sz res rsz rsl) (ha : InBounds nn sz a (min asz rsz) asl) :
+    (List.range' 0 rsz).all (fun i => oneB nn res rsl a asz asl i sz) = true := by
+  apply all_range_true
+  intro i hi
+  have r1 := hres i hi
+  unfold oneB
+  split
+  · have := ha i (by omega); simp; omega
+  · simp; omega
+
+theorem addB_true (nn sz res rsz rsl a asz asl b bsz bsl : Nat)
+    (hres : InBounds nn sz res rsz rsl)
+    (ha : InBounds nn sz a (min asz rsz) asl) (hb : InBounds nn sz b (min bsz rsz) bsl) :
+    (List.range' 0 rsz).all (fun i => addB nn res rsl a asz asl b bsz bsl i sz) = true := by
+  apply all_range_true
+  intro i hi
+  have r1 := hres i hi
+  unfold addB
+  split
+  · rename_i c; have := ha i (by omega); have := hb i (by omega); simp; omega
+  · split
+    · have := hb i (by omega); simp; omega
+    · split
+      · have := ha i (by omega); simp; omega
+      · simp; omega
+
+/-! ### vocabulary shared by C13 / C18 -/
+
+/-- the source vector `(a, asz, asl)` is separate from the output: each of its limbs is disjoint
+    from every output limb (the right disjunct of `SrcOK`) -/
+def Sep (nn res rsz rsl a asz asl : Nat) : Prop :=
+  ∀ i j, i < asz → j < rsz → a + i * asl + nn ≤ res + j * rsl ∨ res + j * rsl + nn ≤ a + i * asl
+
+theorem Sep.srcOK {nn res rsz rsl a asz asl : Nat} (h : Sep nn res rsz rsl a asz asl) :
+    SrcOK nn res rsz rsl a asz asl := Or.inr h
+
+/-- the limbs an operation with `rsz` output limbs can read from `(a, asz, asl)` on heap `m` hold
+    the same data as those of `(a', asz, asl')` on heap `m2` -/
+def SameSrc (d : α) (nn rsz : Nat) (m : Array α) (a asz asl : Nat) (m2 : Array α) (a' asl' : Nat) : Prop :=
+  ∀ i c, i < asz → i < rsz → c < nn → m.getD (a + i * asl + c) d = m2.getD (a' + i * asl' + c) d
+
+theorem readLimb_eq_of_getD (h h2 : Heap α) (d : α) (a a' nn : Nat)
+    (hh : ∀ c, c < nn → h.mem.getD (a + c) d = h2.mem.getD (a' + c) d) :
+    h.readLimb d a nn = h2.readLimb d a' nn := by
+  apply Array.ext
+  · simp
+  · intro c h1 _
+    simp only [size_readLimb] at h1
+    simp only [readLimb, Array.getElem_ofFn]
+    exact hh c h1
+
+theorem SameSrc.readLimb {d : α} {nn rsz : Nat} {h h2 : Heap α} {a asz asl a' asl' : Nat}
+    (hs : SameSrc d nn rsz h.mem a asz asl h2.mem a' asl') (i : Nat) (hi : i < asz) (hr : i < rsz) :
+    h.readLimb d (a + i * asl) nn = h2.readLimb d (a' + i * asl') nn :=
+  readLimb_eq_of_getD h h2 d _ _ nn (fun c hc => hs i c hi hr hc)
+
+theorem frame_src {nn res rsz rsl : Nat} {m m' : Array α} (hf : Frame nn res rsz rsl m m')
+    {a asz asl : Nat} (hsep : Sep nn res rsz rsl a asz asl) (i c : Nat) (hi : i < asz) (hc : c < nn) :
+    m'[a + i * asl + c]? = m[a + i * asl + c]? := by
+  apply hf
+  intro j hj
+  have := hsep i j hi hj
+  omega
+
+theorem frame_extent {nn res rsz rsl : Nat} {m m' : Array α} (hf : Frame nn res rsz rsl m m')
+    (lo hi : Nat) (hd : ∀ j, j < rsz → hi ≤ res + j * rsl ∨ res + j * rsl + nn ≤ lo)
+    (x : Nat) (h1 : lo ≤ x) (h2 : x < hi) : m'[x]? = m[x]? := by
+  apply hf
+  intro j hj
+  have := hd j hj
+  omega
 
 end Spq.C08
